@@ -29,7 +29,11 @@ META = {
                   "header store only deletes headers that are not inside the window (enforced by the node's config "
                   "validation). Blocks whose header has been deleted are outside the pruner's reach and are not "
                   "demanded (a failed height whose header is deleted is dropped by the code with a warning: noted, "
-                  "not alarmed). Restart = Stop + new Service over the same datastore + Start; crashes are not part "
+                  "not alarmed). 'Within a bounded number of cycles' is read generously by the monitors on the real code: a "
+                  "block is reported only after it stayed owed for more completed cycles than there are headers in "
+                  "the store (+2); the model, like the code, needs one cycle. That every failed height is retried in "
+                  "*every* cycle is compared as conformance; the monitor demands a retry within the same bound. "
+                  "Restart = Stop + new Service over the same datastore + Start; crashes are not part "
                   "of the statement. The pruner.Pruner stub is trusted to record what it is given; the header store "
                   "is a scripted implementation of libhead.Store with go-header's OnDelete contract.",
     "design_ref": "DESIGN.md section 5 C14, section 6 #13, section 11",
